@@ -563,7 +563,7 @@ GRID = {
 
 def jobs(tier):
     q = tier == "quick"
-    T = 200 if q else 900
+    T = 400 if q else 900
     J = []
 
     def add(fn, **part):
